@@ -102,7 +102,7 @@ def gen_mibdump(rng, tier):
     fmt = rng.choice(['json', 'json', 'pysnmp', 'null'])
     flags = []
     for f, p in (('--no-dependencies', .2), ('--rebuild', .2), ('--dry-run', .15), ('--no-mib-writes', .1), ('--ignore-errors', .35),
-                 ('--generate-mib-texts', .2), ('--keep-texts-layout', .1), ('--quiet', .05)):
+                 ('--generate-mib-texts', .2), ('--keep-texts-layout', .1), ('--quiet', .15)):
         if rng.random() < p:
             flags.append(f)
     if fmt != 'pysnmp' and rng.random() < 0.2:
@@ -278,7 +278,7 @@ def mod_text(name, rev, tag):
     return '\n'.join(lines) + '\n'
 
 
-REVS = ['199901010000Z', '200506150000Z', '201012312359Z', '202002290000Z']
+REVS = ['199901010000Z', '200506150000Z', '200506151530Z', '201012312359Z', '202002290000Z', '202002290001Z']
 
 
 def gen_mibcopy(rng, tier):
